@@ -47,4 +47,4 @@ def run(ctx):
                        "distinct = (unit, Expried bucket, skipped, restored 0, outage bucket). restart: 12-36 operations per history over 2-3 dbs x 1-2 keys x 3 LockIds "
                        "(lock with persist-now / never-persist / default / percent journalling, units s/min/unlimited/ms, Count 0-2, Rcount 0-3, re-lock to depth 2-4, update flag 0x02, "
                        "unlock Rcount 0-2, SET/INCR/APPEND values on lock and unlock, ticks 1-47 s), aof buffer 64/128/4096, journalling delay 0-2 s, outage 0/1/2/5/20/59/61/90 s; "
-                       "half of the cases run a real compaction first; coverage['distribution']['restart'] has the generated counts")
+                       "half of the cases run a real compaction first; a quarter of the cases (and the corpus lines with an R token) are TWO-GENERATION cases: after the first restart the history continues on the restarted instance at virtual = real clock (client unlocks of restored holds - all levels / one level -, re-locks and updates of restored holds, new holds, some expiring during a real 2 s wait), then drain, snapshot, second restart on a copy, judged like generation 1 (journal side incl. C07:journal:unlock-of-restored-hold-not-journalled, replay side against the journal of both generations) on the keys where the journal on disk described the database when generation 2 began (gen2-* counts); coverage['distribution']['restart'] has the generated counts")
